@@ -120,6 +120,48 @@ def run(repo: Repo, rep: Report, tier: str) -> None:
     rep.analysed["template_lines"] = n_lines
     rep.floor("R16.1", 150)
 
+    # ---- R16.5 context of the sanitised text: repr() output is only "exactly that string" as a
+    # stand-alone expression token; inside another string literal or an f-string of the generated
+    # code its quotes/backslashes/braces are interpreted a second time.
+    from ..core.skeleton import MARK
+
+    seen5 = set()
+    for it in c.items:
+        r = corpus_mod.render_item(it)
+        if r is None:
+            continue
+        raw_markers = {m for m, h in r.holes.items() if set(h.val.tags) & RAW_KINDS}
+        if not raw_markers:
+            continue
+        if r.src in seen5:
+            continue
+        seen5.add(r.src)
+        try:
+            tree = ast.parse(r.src)
+        except SyntaxError:
+            continue  # reported by C17 (R17.0)
+        for node in ast.walk(tree):
+            texts = []
+            if isinstance(node, ast.Constant) and isinstance(node.value, str):
+                texts.append(("string literal", node.value))
+            for kind, text in texts:
+                for m in MARK.finditer(text):
+                    if m.group(0) in raw_markers:
+                        h = r.holes[m.group(0)]
+                        site = it.lines[0].site[0] if it.kind == "buffer" and it.lines else it.entry
+                        for l in (it.lines if it.kind == "buffer" else []):
+                            if any(hh.key() == h.key() for hh in l.tmpl.holes()) and ("'" in l.tmpl.skeleton() or '"' in l.tmpl.skeleton()):
+                                site = l.site[0]
+                        if h.conv == "r":
+                            rep.violation("R16.5", site, f"repr-quoted schema string nested in a {kind}: `{r.describe(text)[:80]}`".replace(show(h.val), "{}"),
+                                          "a repr()-quoted schema string is placed inside another string literal / f-string of the generated "
+                                          "code, where its quotes, backslashes or braces are interpreted again",
+                                          generated=r.describe(text)[:300])
+                        # conv != 'r' inside quotes is already R16.1
+            if isinstance(node, ast.JoinedStr):
+                pass
+        rep.ok("R16.5", f"raw holes of {it.scenario} appear only as expression tokens", None, nontrivial=False)
+
     # ---- R16.3 F-exec: the only sinks that execute computed text
     n = 0
     for fi in repo.funcs.values():
